@@ -311,6 +311,11 @@ func genFlow(rng *rand.Rand, o *wireOpts, v Variant, c *sim.Call, fi int, actor 
 				hp.Replies = append(hp.Replies, r)
 			}
 		}
+		if o.adversarial > 0 && !v.V6 && chance(rng, 0.12) {
+			// the same identifiers in the other address family (IPv4-mapped addresses in an ICMPv6 error)
+			hp.Replies = append(hp.Replies, sim.Reply{Form: "teXfam", From: attackerAddr(true, adv), K: rng.IntN(4), DelayUs: int64(between(rng, 10, int(max64(delay-10, 20))))})
+			adv++
+		}
 		if o.destForms && chance(rng, 0.5) {
 			// a destination-form reply carrying the right identifiers, from a host that is not the target
 			r := sim.Reply{Form: destForms(v, rng, true), From: attackerAddr(v.V6, 1000+adv), DelayUs: int64(between(rng, 10, int(max64(delay-10, 20))))}
